@@ -869,6 +869,14 @@ func c16txCase(c *vf.Ctx, i int) {
 		var t *bchutil.Tx
 		var err error
 		own := append([]byte{}, want...)
+		if ci > 0 && r.Intn(3) == 0 {
+			// the buffer / stream continues behind the transaction (e.g. a slice
+			// of a block starting at TxLoc.TxStart): the constructor consumes
+			// exactly one transaction, and the wrapper must describe that one
+			own = append(own, r.Bytes(1+r.Intn(40))...)
+			trace = append(trace, fmt.Sprintf("(+%d trailing bytes)", len(own)-len(want)))
+			c.Inc("txs_constructed_from_bytes_with_trailing_data")
+		}
 		ok := c.Call(ctor, desc, func() {
 			switch ctor {
 			case "NewTx":
